@@ -294,8 +294,12 @@ EXPLANATION = 'filters, wiring and name table'
 def bounded_checks(tier, seed):
     """B3: the real filter functions on every sub-map / list over a 4-name universe."""
     from pyvc.bounded import run_tool
-    return run_tool('C15', 'b3_filters', 'b3_filters.py', [],
-                    'all sub-maps and all allow/block lists over a 4-name universe', 'failing_case')
+    from pyvc.bounded import merge
+    return merge(
+        run_tool('C15', 'b3_filters', 'b3_filters.py', [],
+                 'all sub-maps and all allow/block lists over a 4-name universe', 'failing_case'),
+        run_tool('C15', 'b3_copyhead', 'b3_copyhead.py', [],
+                 'real TransferManager.copy against a recording client: every set of <= 2 copy arguments with a HeadObject meaning', 'failing_case'))
 
 
 from .b_legacy import LEGACY_C15  # noqa: E402
